@@ -5,6 +5,14 @@ HERE = os.path.dirname(os.path.dirname(os.path.abspath(__file__)))
 
 # id -> (technique, level text, level note, design ref)
 CHECKS = {
+ "C02": ("PBT against a reference model: proptest-generated macro definitions and calls, captured one-step expansion compared with a transcription of TeX's macro_call",
+         "Random parameter texts (prefix, up to 9 parameters, delimiters of 1-3 tokens drawn from the same alphabet as the arguments so partial matches occur, optional #{), replacement texts (literals, #n, ##, groups) and argument tuples of all stated shapes; the unexpanded tokens after exactly one expansion (braces and tail included) must equal the model's.",
+         "Trusted: the transcription of TeX 389-399 on token lists (DESIGN.md A.2), the canonical renderer (control symbols only, no adjacent spaces) whose output re-lexes to the generated tokens, proptest. Calls TeX rejects are outside the quantifier (skipped, counted).",
+         "DESIGN.md §4 C02"),
+ "C07": ("PBT: conditional trees vs a tree evaluator; differential testing of the two \\expandafter implementations; one-step expansion model observed through a capture primitive",
+         "Random well-nested conditional trees (depth 0..6, i32 operands incl. negatives and limits, junk and \\let-aliases in skipped text) must deliver exactly the tags of the selected path; random token streams must behave identically (tokens and error) under the optimised and simple \\expandafter; \\expandafter^k chains must equal a one-step expansion model; \\noexpand sequences deliver each protected macro unexpanded exactly once.",
+         "Trusted: the conditional evaluator and one-step expansion model (small, from TeX 487-510, 366-368), proptest. \\expandafter applied to \\noexpand is only compared differentially.",
+         "DESIGN.md §4 C07"),
  "C01": ("model-based PBT: proptest-generated group/assignment histories rendered as TeX programs, output compared with a stack-of-snapshots reference model",
          "Random histories (up to 250 operations, depth 0..8) of {, }, local / \\global / \\gdef / \\let / \\globaldefs-governed assignments to every target kind named in the property, with all targets read back after every group end; the token-exact output must equal the reference model's. Shrunk counterexamples are replayable JSON histories.",
          "Trusted: the 30-line snapshot model of TeX's scoping rules (DESIGN.md A.1), the rendering of histories to one-line programs, proptest. Generated search shows presence of violations, not absence.",
